@@ -74,6 +74,9 @@ func c01Expr(env *core.Env, stream, opKey, src string, experimental bool) fx.Res
 }
 
 func c01Judge(env *core.Env, stream, opKey, src string, r fx.Res) {
+	if r.Kind == "dead" {
+		return // the parent process already attributes the death / hang of the earlier attempt to this call
+	}
 	if r.IsPanic() {
 		env.Violatef(fx.PanicSig("C01", r), "%s: `%s` => %s", stream, src, r.Short())
 		return
